@@ -322,11 +322,31 @@ inline constexpr bool is_tracked_v<TrackedT<K, Tag>> = true;
 template <>
 inline constexpr bool is_tracked_v<TrackedDA> = true;
 
+// floating-point elements are int-coded in models and logs: 6 stands for -0.0, 7 for NaN, everything else for itself
+inline auto decode_float(long long code) -> double
+{
+    if (code == 7) {
+        return __builtin_nan("");
+    }
+    if (code == 6) {
+        return -0.0;
+    }
+    return static_cast<double>(code);
+}
+
 template <typename T>
 auto value_of(T const& x) -> long long
 {
     if constexpr (is_tracked_v<T>) {
         return x.v;
+    } else if constexpr (std::is_floating_point_v<T>) {
+        if (x != x) {
+            return 7;
+        }
+        if (x == 0 && __builtin_signbit(x)) {
+            return 6;
+        }
+        return static_cast<long long>(x);
     } else {
         return static_cast<long long>(x);
     }
